@@ -755,8 +755,16 @@ pub fn op_end() -> OpAtomics {
 /// Newest value of the counter of the block starting at `block_ptr`, without any memory-model
 /// effect (harness-side observation only).
 pub fn peek(block_ptr: usize) -> usize {
-    unsafe { (*(block_ptr as *const core::sync::atomic::AtomicUsize)).load(O::Relaxed) }
+    let w = COUNTER_WIDTH.load(O::Relaxed);
+    unsafe {
+        match w {
+            4 => (*(block_ptr as *const core::sync::atomic::AtomicU32)).load(O::Relaxed) as usize,
+            _ => (*(block_ptr as *const core::sync::atomic::AtomicUsize)).load(O::Relaxed),
+        }
+    }
 }
+/// Width in bytes of the counter type triomphe uses (set by the shim on every operation).
+pub static COUNTER_WIDTH: AtomicUsize = AtomicUsize::new(8);
 
 pub fn parallel_now() -> bool {
     if !ACTIVE.load(O::Relaxed) {
@@ -784,12 +792,23 @@ pub fn rmw(
     fail_ord: O,
     f: impl FnOnce(usize) -> Option<usize>,
 ) -> usize {
+    rmw_at(real as *const _ as usize, &|| real.load(O::Relaxed), &|v| real.store(v, O::Relaxed), ord, fail_ord, f)
+}
+
+/// Width-agnostic form: `get`/`put` access the real memory cell (any integer atomic type).
+pub fn rmw_at(
+    addr: usize,
+    get: &dyn Fn() -> usize,
+    put: &dyn Fn(usize),
+    ord: O,
+    fail_ord: O,
+    f: impl FnOnce(usize) -> Option<usize>,
+) -> usize {
     sched_point();
     let t = tid();
     let _nt = NoTrack::new();
-    let addr = real as *const _ as usize;
     let r = with(|s| -> Result<usize, (String, String)> {
-        let cur = real.load(O::Relaxed);
+        let cur = get();
         let li = s.find_loc(addr, cur)?;
         let now = s.tick(t);
         {
@@ -804,7 +823,7 @@ pub fn rmw(
         let prev_rel = s.locs[li].stores[newest].rel;
         match f(old) {
             Some(new) => {
-                real.store(new, O::Relaxed);
+                put(new);
                 if is_acq(ord) {
                     vc_join(&mut s.clocks[t], &prev_rel);
                 } else {
@@ -866,12 +885,15 @@ pub fn rmw(
 }
 
 pub fn load(real: &core::sync::atomic::AtomicUsize, ord: O) -> usize {
+    load_at(real as *const _ as usize, &|| real.load(O::Relaxed), ord)
+}
+
+pub fn load_at(addr: usize, get: &dyn Fn() -> usize, ord: O) -> usize {
     sched_point();
     let t = tid();
     let _nt = NoTrack::new();
-    let addr = real as *const _ as usize;
     let r = with(|s| -> Result<usize, (String, String)> {
-        let cur = real.load(O::Relaxed);
+        let cur = get();
         let li = s.find_loc(addr, cur)?;
         let now = s.tick(t);
         {
@@ -944,15 +966,18 @@ pub fn load(real: &core::sync::atomic::AtomicUsize, ord: O) -> usize {
 }
 
 pub fn store(real: &core::sync::atomic::AtomicUsize, val: usize, ord: O) {
+    store_at(real as *const _ as usize, &|| real.load(O::Relaxed), &|v| real.store(v, O::Relaxed), val, ord)
+}
+
+pub fn store_at(addr: usize, get: &dyn Fn() -> usize, put: &dyn Fn(usize), val: usize, ord: O) {
     sched_point();
     let t = tid();
     let _nt = NoTrack::new();
-    let addr = real as *const _ as usize;
     let r = with(|s| -> Result<(), (String, String)> {
-        let cur = real.load(O::Relaxed);
+        let cur = get();
         let li = s.find_loc(addr, cur)?;
         let now = s.tick(t);
-        real.store(val, O::Relaxed);
+        put(val);
         // a plain store heads its own release sequence and breaks the previous one
         let rel = if is_rel(ord) { s.clocks[t] } else { s.fence_rel[t] };
         let l = &mut s.locs[li];
